@@ -43,6 +43,8 @@ pub enum Kind {
     OtherUnknown,
     /// closed or reset before the type is complete
     NoType,
+    /// opened (implicitly, or with a strict prefix of its type varint) and then left silent and open
+    Silent,
 }
 #[derive(Clone, Copy, Debug, PartialEq)]
 pub enum End {
@@ -145,7 +147,7 @@ fn gen_stream(kind: Kind, role_server: bool) -> UniSpec {
         Kind::WtUni => frames::ST_WT_UNI,
         Kind::Grease => 0x21 + 0x1f * draw(1000) as u64,
         Kind::OtherUnknown => *pick(&[0x04u64, 0x3f, 0x40, 0x1234, 0x3fff_ffff_ffff_ffff]),
-        Kind::NoType => *pick(&[0x40u64, 0x4000, 0x4000_0000]), // multi-byte type that will be cut
+        Kind::NoType | Kind::Silent => *pick(&[0x40u64, 0x4000, 0x4000_0000]), // multi-byte type that will be cut
     };
     let mut bytes = varint_any_form(ty);
     let mut frames_ = vec![];
@@ -171,6 +173,12 @@ fn gen_stream(kind: Kind, role_server: bool) -> UniSpec {
             let keep = draw_usize(bytes.len()); // strictly fewer than the whole type
             bytes.truncate(keep);
             end = if draw(2) == 0 { End::Fin } else { End::Reset(*pick(&[0u64, 0x103])) };
+        }
+        Kind::Silent => {
+            let keep = draw_usize(bytes.len()); // nothing at all, or a strict prefix of the type
+            bytes.truncate(keep);
+            end = End::Open;
+            obs::count("probe.silent_uni_stream");
         }
         _ => {
             bytes.extend(vec![0x11; draw_usize(12)]);
@@ -210,7 +218,7 @@ fn reference(streams: &[UniSpec], role_server: bool) -> RefOut {
     let _ = &mut controls;
     for s in streams {
         // a stream whose type never completes is invisible
-        let type_complete = s.kind != Kind::NoType && varint::decode(&s.bytes[..s.sent]).is_some();
+        let type_complete = s.kind != Kind::NoType && s.kind != Kind::Silent && varint::decode(&s.bytes[..s.sent]).is_some();
         match s.kind {
             Kind::Control => {
                 // under RESET the type itself may be overtaken: then nothing can be demanded
@@ -315,7 +323,7 @@ fn reference(streams: &[UniSpec], role_server: bool) -> RefOut {
                 }
             }
             Kind::Push => out.unconstrained = true, // not constrained by C04 (DESIGN §7)
-            Kind::WtUni | Kind::Grease | Kind::OtherUnknown | Kind::NoType => {}
+            Kind::WtUni | Kind::Grease | Kind::OtherUnknown | Kind::NoType | Kind::Silent => {}
         }
     }
     for k in &maybe_dups {
@@ -575,7 +583,7 @@ impl Check for C04 {
     fn meta(&self) -> Meta {
         Meta {
             level: "exploration",
-            rule: "peer behaviours of 1-5 unidirectional streams (control, push, QPACK encoder/decoder, WebTransport-uni, grease, other unknown, closed/reset before the type is complete; type varints in every length form) whose control stream carries SETTINGS + legal frames with at most one deviation over {second/duplicate/reserved SETTINGS, GOAWAY ids, CANCEL_PUSH, MAX_PUSH_ID, DATA, HEADERS, PUSH_PROMISE, HTTP/2 types, unknown}, FIN or RESET at a drawn position; both roles; arrival order and chunking drawn, each behaviour replayed under a second chunking; the endpoint's own outgoing side suffers drawn write pends/partial acceptance and stream-credit shortage (credit for the 4th, grease, stream withheld for ever or granted late); non-trivial = a control stream with >= 2 frames was delivered in >= 2 chunks or credit was short; distinct = distinct schedule signatures",
+            rule: "peer behaviours of 1-5 unidirectional streams (control, push, QPACK encoder/decoder, WebTransport-uni, grease, other unknown, closed/reset before the type is complete, opened and left silent with no byte or a strict prefix of its type; type varints in every length form) whose control stream carries SETTINGS + legal frames with at most one deviation over {second/duplicate/reserved SETTINGS, GOAWAY ids, CANCEL_PUSH, MAX_PUSH_ID, DATA, HEADERS, PUSH_PROMISE, HTTP/2 types, unknown}, FIN or RESET at a drawn position; both roles; arrival order and chunking drawn, each behaviour replayed under a second chunking; the endpoint's own outgoing side suffers drawn write pends/partial acceptance and stream-credit shortage (credit for the 4th, grease, stream withheld for ever or granted late); non-trivial = a control stream with >= 2 frames was delivered in >= 2 chunks or credit was short; distinct = distinct schedule signatures",
             real: &["h3 connection driver (ConnectionInner::poll_control / poll_accept_recv / grease stream)", "h3 server and client Connection", "AcceptRecvStream, FrameStream, frame decoder, settings application"],
             stub: &["QUIC transport (SimQuic)", "executor (simexec)", "peer (script of raw uni-stream actions)", "application (accept loop / poll_close driver + a probing request)"],
             assumptions: &["unknown frame before SETTINGS, CANCEL_PUSH to a client, push streams and a RESET control stream whose type may be overtaken are left unconstrained", "two independent causes in one run admit either code"],
@@ -600,7 +608,7 @@ impl Check for C04 {
                 7 => Kind::Push,
                 8 => Kind::NoType,
                 9 => Kind::Encoder,
-                10 => Kind::Grease,
+                10 => Kind::Silent,
                 _ => Kind::Control,
             };
             if kind == Kind::Control {
